@@ -243,3 +243,287 @@ theorem centre_counterexample :
   nlinarith [hh]
 
 end ERP.C16
+
+namespace ERP.C16
+open ERP Real
+
+/-! ## Direction, sweep and coverage -/
+
+/-- cosine and sine of `arg ⟨x, y⟩` -/
+theorem cos_sin_arg (x y : ℝ) (h : x ≠ 0 ∨ y ≠ 0) :
+    Real.cos (Complex.arg ⟨x, y⟩) * Real.sqrt (x * x + y * y) = x ∧
+    Real.sin (Complex.arg ⟨x, y⟩) * Real.sqrt (x * x + y * y) = y := by
+  have hz : (⟨x, y⟩ : ℂ) ≠ 0 := by
+    intro hc
+    have h1 := congrArg Complex.re hc
+    have h2 := congrArg Complex.im hc
+    simp at h1 h2
+    rcases h with h | h
+    · exact h h1
+    · exact h h2
+  have hn : ‖(⟨x, y⟩ : ℂ)‖ = Real.sqrt (x * x + y * y) := by
+    rw [Complex.norm_def, Complex.normSq_mk]
+  have hpos : ‖(⟨x, y⟩ : ℂ)‖ ≠ 0 := norm_ne_zero_iff.mpr hz
+  constructor
+  · rw [Complex.cos_arg hz, ← hn]; field_simp
+  · rw [Complex.sin_arg, ← hn]; field_simp
+
+/-- the three normalisation steps of `angularTravel`, spelled out -/
+theorem angularTravel_eq (x y endX endY i j : ℝ) (cw : Bool) :
+    T.angularTravel x y endX endY i j cw =
+      (let a0 := Complex.arg ⟨-i * (endX - (x + i)) - j * (endY - (y + j)),
+                              -i * (endY - (y + j)) + j * (endX - (x + i))⟩
+       let a1 := if a0 < 0 then a0 + 2 * π else a0
+       let a2 := if cw then a1 - 2 * π else a1
+       if a2 == 0 && x == endX && y == endY then 2 * π else a2) := rfl
+
+/-- **Direction and size of the sweep**: counter-clockwise arcs sweep an angle in `[0, 2π]`,
+clockwise arcs an angle in `[-2π, 0)` — or the full circle `2π` when start and end coincide. -/
+theorem travel_range (x y endX endY i j : ℝ) (cw : Bool) :
+    (cw = false → 0 ≤ T.angularTravel x y endX endY i j cw ∧ T.angularTravel x y endX endY i j cw ≤ 2 * π) ∧
+    (cw = true → (-(2 * π) ≤ T.angularTravel x y endX endY i j cw ∧ T.angularTravel x y endX endY i j cw < 0) ∨
+      T.angularTravel x y endX endY i j cw = 2 * π) := by
+  have hpi := Real.pi_pos
+  rw [angularTravel_eq]
+  have ha := Complex.arg_le_pi (⟨-i * (endX - (x + i)) - j * (endY - (y + j)), -i * (endY - (y + j)) + j * (endX - (x + i))⟩ : ℂ)
+  have hb := Complex.neg_pi_lt_arg (⟨-i * (endX - (x + i)) - j * (endY - (y + j)), -i * (endY - (y + j)) + j * (endX - (x + i))⟩ : ℂ)
+  generalize Complex.arg (⟨-i * (endX - (x + i)) - j * (endY - (y + j)), -i * (endY - (y + j)) + j * (endX - (x + i))⟩ : ℂ) = a0 at *
+  dsimp only
+  have h1 : 0 ≤ (if a0 < 0 then a0 + 2 * π else a0) ∧ (if a0 < 0 then a0 + 2 * π else a0) < 2 * π := by
+    split <;> constructor <;> linarith
+  generalize (if a0 < 0 then a0 + 2 * π else a0) = a1 at *
+  constructor
+  · intro hc
+    subst hc
+    simp only [Bool.false_eq_true, if_false]
+    split
+    · constructor <;> linarith
+    · constructor <;> linarith
+  · intro hc
+    subst hc
+    simp only [if_true]
+    split
+    · right; rfl
+    · left; constructor <;> linarith
+
+/-- **The commanded end point is where the sweep ends**: if the end point lies on the circle
+through the start point about the centre, it is the point at angle `start angle + travel`. -/
+theorem end_at_travel (x y endX endY i j : ℝ) (cw : Bool) (hij : i ≠ 0 ∨ j ≠ 0)
+    (hon : (endX - (x + i)) ^ 2 + (endY - (y + j)) ^ 2 = i * i + j * j) :
+    endX = x + i + Real.cos (Complex.arg ⟨-i, -j⟩ + T.angularTravel x y endX endY i j cw) * Real.sqrt (i * i + j * j) ∧
+    endY = y + j + Real.sin (Complex.arg ⟨-i, -j⟩ + T.angularTravel x y endX endY i j cw) * Real.sqrt (i * i + j * j) := by
+  have hpi := Real.pi_pos
+  obtain ⟨X, hX⟩ : ∃ X, X = endX - (x + i) := ⟨_, rfl⟩
+  obtain ⟨Y, hY⟩ : ∃ Y, Y = endY - (y + j) := ⟨_, rfl⟩
+  obtain ⟨r, hr⟩ : ∃ r, r = Real.sqrt (i * i + j * j) := ⟨_, rfl⟩
+  obtain ⟨a, haa⟩ : ∃ a, a = Complex.arg (⟨-i, -j⟩ : ℂ) := ⟨_, rfl⟩
+  rw [← hX, ← hY] at hon
+  rw [← hr, ← haa]
+  have hnn : 0 ≤ i * i + j * j := add_nonneg (mul_self_nonneg i) (mul_self_nonneg j)
+  have hr2 : r * r = i * i + j * j := by rw [hr]; exact Real.mul_self_sqrt hnn
+  have hrpos : 0 < r := by
+    rw [hr]
+    apply Real.sqrt_pos.mpr
+    rcases hij with h | h
+    · have := mul_self_pos.mpr h; nlinarith [mul_self_nonneg j]
+    · have := mul_self_pos.mpr h; nlinarith [mul_self_nonneg i]
+  -- start angle
+  obtain ⟨ca, sa⟩ := cos_sin_arg (-i) (-j) (by
+    rcases hij with h | h
+    · exact Or.inl (neg_ne_zero.mpr h)
+    · exact Or.inr (neg_ne_zero.mpr h))
+  have hr' : Real.sqrt (-i * -i + -j * -j) = r := by
+    rw [hr]; congr 1; ring
+  rw [hr', ← haa] at ca sa
+  -- rotation angle: dot and cross product
+  obtain ⟨d, hd⟩ : ∃ d, d = -i * X - j * Y := ⟨_, rfl⟩
+  obtain ⟨c, hc⟩ : ∃ c, c = -i * Y + j * X := ⟨_, rfl⟩
+  have hlag : d * d + c * c = (r * r) * (r * r) := by
+    rw [hr2, hd, hc]
+    have : X ^ 2 + Y ^ 2 = i * i + j * j := hon
+    have e : (-i * X - j * Y) * (-i * X - j * Y) + (-i * Y + j * X) * (-i * Y + j * X) =
+        (i * i + j * j) * (X ^ 2 + Y ^ 2) := by ring
+    rw [e, this]
+  have hsq : Real.sqrt (d * d + c * c) = r * r := by
+    rw [hlag]; exact Real.sqrt_mul_self (le_of_lt (mul_pos hrpos hrpos))
+  have hdc : d ≠ 0 ∨ c ≠ 0 := by
+    by_cases hd0 : d = 0
+    · right
+      intro hc0
+      rw [hd0, hc0] at hlag
+      have : 0 < r * r * (r * r) := mul_pos (mul_pos hrpos hrpos) (mul_pos hrpos hrpos)
+      linarith
+    · exact Or.inl hd0
+  obtain ⟨c0, s0⟩ := cos_sin_arg d c hdc
+  rw [hsq] at c0 s0
+  -- the travel is the rotation angle up to full turns
+  have hper : Real.cos (a + T.angularTravel x y endX endY i j cw) = Real.cos (a + Complex.arg ⟨d, c⟩) ∧
+      Real.sin (a + T.angularTravel x y endX endY i j cw) = Real.sin (a + Complex.arg ⟨d, c⟩) := by
+    rw [angularTravel_eq]
+    have hdd : (⟨-i * (endX - (x + i)) - j * (endY - (y + j)), -i * (endY - (y + j)) + j * (endX - (x + i))⟩ : ℂ) = ⟨d, c⟩ := by
+      rw [hd, hc, hX, hY]
+    rw [hdd]
+    generalize Complex.arg (⟨d, c⟩ : ℂ) = a0
+    dsimp only
+    have p1 : ∀ z : ℝ, Real.cos (a + (z + 2 * π)) = Real.cos (a + z) ∧ Real.sin (a + (z + 2 * π)) = Real.sin (a + z) := by
+      intro z
+      rw [← add_assoc, Real.cos_add_two_pi, Real.sin_add_two_pi]; exact ⟨rfl, rfl⟩
+    have p2 : ∀ z : ℝ, Real.cos (a + (z - 2 * π)) = Real.cos (a + z) ∧ Real.sin (a + (z - 2 * π)) = Real.sin (a + z) := by
+      intro z
+      rw [← add_sub_assoc, Real.cos_sub_two_pi, Real.sin_sub_two_pi]; exact ⟨rfl, rfl⟩
+    -- a1 ≡ a0, a2 ≡ a1 (mod 2π)
+    have q1 : Real.cos (a + (if a0 < 0 then a0 + 2 * π else a0)) = Real.cos (a + a0) ∧
+        Real.sin (a + (if a0 < 0 then a0 + 2 * π else a0)) = Real.sin (a + a0) := by
+      split
+      · exact p1 a0
+      · exact ⟨rfl, rfl⟩
+    generalize (if a0 < 0 then a0 + 2 * π else a0) = a1 at *
+    have q2 : Real.cos (a + (if cw = true then a1 - 2 * π else a1)) = Real.cos (a + a0) ∧
+        Real.sin (a + (if cw = true then a1 - 2 * π else a1)) = Real.sin (a + a0) := by
+      split
+      · rw [(p2 a1).1, (p2 a1).2]; exact q1
+      · exact q1
+    generalize (if cw = true then a1 - 2 * π else a1) = a2 at *
+    split
+    · rename_i h0
+      simp only [Bool.and_eq_true, beq_iff_eq] at h0
+      obtain ⟨⟨hz, _⟩, _⟩ := h0
+      rw [hz] at q2
+      have := p1 0
+      simp only [zero_add] at this
+      rw [this.1, this.2]; exact q2
+    · exact q2
+  rw [hper.1, hper.2, Real.cos_add, Real.sin_add]
+  have hr3 : r * r ≠ 0 := ne_of_gt (mul_pos hrpos hrpos)
+  constructor
+  · have key : (Real.cos a * Real.cos (Complex.arg ⟨d, c⟩) - Real.sin a * Real.sin (Complex.arg ⟨d, c⟩)) * r = X := by
+      have e1 : (Real.cos a * Real.cos (Complex.arg ⟨d, c⟩) - Real.sin a * Real.sin (Complex.arg ⟨d, c⟩)) * r * (r * r)
+          = (Real.cos a * r) * (Real.cos (Complex.arg ⟨d, c⟩) * (r * r)) -
+            (Real.sin a * r) * (Real.sin (Complex.arg ⟨d, c⟩) * (r * r)) := by ring
+      rw [ca, sa, c0, s0] at e1
+      have e2 : -i * d - -j * c = X * (r * r) := by rw [hd, hc, hr2]; ring
+      rw [e2] at e1
+      exact mul_right_cancel₀ hr3 e1
+    rw [key, hX]; ring
+  · have key : (Real.sin a * Real.cos (Complex.arg ⟨d, c⟩) + Real.cos a * Real.sin (Complex.arg ⟨d, c⟩)) * r = Y := by
+      have e1 : (Real.sin a * Real.cos (Complex.arg ⟨d, c⟩) + Real.cos a * Real.sin (Complex.arg ⟨d, c⟩)) * r * (r * r)
+          = (Real.sin a * r) * (Real.cos (Complex.arg ⟨d, c⟩) * (r * r)) +
+            (Real.cos a * r) * (Real.sin (Complex.arg ⟨d, c⟩) * (r * r)) := by ring
+      rw [ca, sa, c0, s0] at e1
+      have e2 : -j * d + -i * c = Y * (r * r) := by rw [hd, hc, hr2]; ring
+      rw [e2] at e1
+      exact mul_right_cancel₀ hr3 e1
+    rw [key, hY]; ring
+
+end ERP.C16
+
+namespace ERP.C16
+open ERP Real
+
+/-- the point of the commanded arc at parameter `t ∈ [0, 1]` -/
+noncomputable def arcPoint (cx cy r a travel t : ℝ) : ℝ × ℝ :=
+  (cx + Real.cos (a + t * travel) * r, cy + Real.sin (a + t * travel) * r)
+
+/-- every point of the arc is within one length unit of one of the `n` sampling angles
+`a + k·travel/n`, `1 ≤ k ≤ n` -/
+theorem arc_near_grid (cx cy r a travel : ℝ) (n : ℕ) (hn : 1 ≤ n) (hr : 0 ≤ r)
+    (hseg : |travel| * r ≤ n) (t : ℝ) (ht0 : 0 ≤ t) (ht1 : t ≤ 1) :
+    ∃ k : ℕ, 1 ≤ k ∧ k ≤ n ∧
+      ((arcPoint cx cy r a travel t).1 - (cx + Real.cos (a + (k : ℝ) * (travel / n)) * r)) ^ 2 +
+      ((arcPoint cx cy r a travel t).2 - (cy + Real.sin (a + (k : ℝ) * (travel / n)) * r)) ^ 2 ≤ 1 := by
+  have hnpos : (0 : ℝ) < n := by exact_mod_cast hn
+  -- the grid index
+  obtain ⟨k, hk1, hkn, hclose⟩ : ∃ k : ℕ, 1 ≤ k ∧ k ≤ n ∧ |t - (k : ℝ) / n| ≤ 1 / n := by
+    by_cases hsmall : t * n ≤ 1
+    · refine ⟨1, le_refl _, hn, ?_⟩
+      rw [abs_le]
+      constructor
+      · have : 0 ≤ t := ht0
+        have h1 : ((1 : ℕ) : ℝ) / n = 1 / n := by norm_num
+        rw [h1]; linarith
+      · have h1 : ((1 : ℕ) : ℝ) / n = 1 / n := by norm_num
+        rw [h1]
+        have : t ≤ 1 / n := by rw [le_div_iff₀ hnpos]; exact hsmall
+        have : (0:ℝ) ≤ 1 / n := by positivity
+        linarith
+    · have hbig : 1 < t * n := not_le.mp hsmall
+      refine ⟨Nat.ceil (t * n), ?_, ?_, ?_⟩
+      · exact Nat.one_le_iff_ne_zero.mpr (by
+          intro h0
+          have := Nat.le_ceil (t * n)
+          rw [h0] at this
+          simp at this
+          linarith)
+      · apply Nat.ceil_le.mpr
+        have : t * n ≤ 1 * n := mul_le_mul_of_nonneg_right ht1 (le_of_lt hnpos)
+        simpa using this
+      · have h1 := Nat.le_ceil (t * n)
+        have h2 := Nat.ceil_lt_add_one (le_of_lt (lt_trans zero_lt_one hbig))
+        rw [abs_le]
+        constructor
+        · have : ((Nat.ceil (t * n) : ℕ) : ℝ) / n < (t * n + 1) / n := by
+            apply div_lt_div_of_pos_right h2 hnpos
+          have e : (t * n + 1) / n = t + 1 / n := by field_simp
+          rw [e] at this
+          linarith
+        · have : t ≤ ((Nat.ceil (t * n) : ℕ) : ℝ) / n := by
+            rw [le_div_iff₀ hnpos]; exact h1
+          have : (0:ℝ) ≤ 1 / n := by positivity
+          linarith
+  refine ⟨k, hk1, hkn, ?_⟩
+  simp only [arcPoint]
+  refine le_trans (chord_le cx cy r _ _) ?_
+  have hdiff : (a + t * travel) - (a + (k : ℝ) * (travel / n)) = (t - (k : ℝ) / n) * travel := by
+    field_simp; ring
+  rw [hdiff]
+  have h1 : |r * ((t - (k : ℝ) / n) * travel)| ≤ 1 := by
+    rw [abs_mul, abs_mul, abs_of_nonneg hr]
+    have hb : |t - (k : ℝ) / n| * |travel| ≤ 1 / n * |travel| :=
+      mul_le_mul_of_nonneg_right hclose (abs_nonneg _)
+    have : r * (|t - (k : ℝ) / n| * |travel|) ≤ r * (1 / n * |travel|) := mul_le_mul_of_nonneg_left hb hr
+    have e : r * (1 / n * |travel|) = (|travel| * r) / n := by field_simp
+    rw [e] at this
+    have : (|travel| * r) / n ≤ 1 := by rw [div_le_one hnpos]; exact hseg
+    linarith
+  exact (sq_le_one_iff_abs_le_one _).mpr h1
+
+/-- **Coverage.** For an I/J arc whose end point lies on the circle, every point of the commanded
+arc is within one length unit of a point `planArc` hands to the region test.  Consequently an arc
+that reaches more than one unit deep into a region has a tested point inside it and is excluded
+as a whole. -/
+theorem planArc_covers (p : Position ℝ) (endX endY i j : ℝ) (cw : Bool) (hij : i ≠ 0 ∨ j ≠ 0)
+    (hon : (endX - (T.n2l p.x + i)) ^ 2 + (endY - (T.n2l p.y + j)) ^ 2 = i * i + j * j)
+    (t : ℝ) (ht0 : 0 ≤ t) (ht1 : t ≤ 1) :
+    ∃ q ∈ T.planArc p endX endY i j cw,
+      ((arcPoint (T.n2l p.x + i) (T.n2l p.y + j) (Real.sqrt (i * i + j * j)) (Complex.arg ⟨-i, -j⟩)
+          (T.angularTravel (T.n2l p.x) (T.n2l p.y) endX endY i j cw) t).1 - q.1) ^ 2 +
+      ((arcPoint (T.n2l p.x + i) (T.n2l p.y + j) (Real.sqrt (i * i + j * j)) (Complex.arg ⟨-i, -j⟩)
+          (T.angularTravel (T.n2l p.x) (T.n2l p.y) endX endY i j cw) t).2 - q.2) ^ 2 ≤ 1 := by
+  obtain ⟨hn, hseg, hstruct⟩ := planArc_structure p endX endY i j cw
+  obtain ⟨e1, e2⟩ := end_at_travel (T.n2l p.x) (T.n2l p.y) endX endY i j cw hij hon
+  generalize T.angularTravel (T.n2l p.x) (T.n2l p.y) endX endY i j cw = travel at *
+  generalize T.numSegments travel (Real.sqrt (i * i + j * j)) = n at *
+  obtain ⟨k, hk1, hkn, hk⟩ := arc_near_grid (T.n2l p.x + i) (T.n2l p.y + j) (Real.sqrt (i * i + j * j))
+    (Complex.arg ⟨-i, -j⟩) travel n hn (Real.sqrt_nonneg _) hseg t ht0 ht1
+  have hnpos : (0 : ℝ) < n := by exact_mod_cast hn
+  rw [hstruct]
+  by_cases hlast : k = n
+  · -- the last grid point is the commanded end point
+    refine ⟨(endX, endY), by simp, ?_⟩
+    have hang : (k : ℝ) * (travel / n) = travel := by rw [hlast]; field_simp
+    rw [hang] at hk
+    rw [← e1, ← e2] at hk
+    exact hk
+  · refine ⟨samplePoint (T.n2l p.x + i) (T.n2l p.y + j) (Real.sqrt (i * i + j * j))
+        (Complex.arg ⟨-i, -j⟩) (travel / n) (k - 1), ?_, ?_⟩
+    · apply List.mem_append_left
+      apply List.mem_map.mpr
+      exact ⟨k - 1, List.mem_range.mpr (by omega), rfl⟩
+    · simp only [samplePoint]
+      have : ((k - 1 + 1 : ℕ) : ℝ) = (k : ℝ) := by
+        have : k - 1 + 1 = k := by omega
+        rw [this]
+      rw [this]
+      exact hk
+
+end ERP.C16
